@@ -48,6 +48,18 @@ def case_seed(prop, seed, idx, salt=''):
     return int.from_bytes(h[:8], 'big')
 
 
+def default_limit(tier):
+    """Wall-clock limit of one check run: 15 min for the quick tier (it needs about one), 40 min for the thorough
+    tier (VERIF_THOROUGH_LIMIT overrides, in seconds).  Shards stop generating cases at 60 % of the limit and report
+    what they did, so the thorough tier is time-bounded: a faster machine explores more cases, no machine is killed."""
+    if tier == 'quick':
+        return 900
+    try:
+        return max(300, int(os.environ.get('VERIF_THOROUGH_LIMIT', '2400')))
+    except ValueError:
+        return 2400
+
+
 def out_of_time(frac=0.6):
     """True once the shard has used `frac` of the wall-clock limit the driver gave it (VERIF_T0 / VERIF_LIMIT).
     Workloads stop generating new cases then and report what they did, so that a slow or loaded machine yields a
